@@ -696,19 +696,19 @@ func parseShortTermRPS(r *bits.EBSPReader, idx, numSTRefPicSets byte, sps *SPS) 
 		interRPSPredFlag = r.ReadFlag()
 	}
 	if interRPSPredFlag {
-		deltaIdx := byte(1)
+		deltaIdx := uint(1)
 		if idx == numSTRefPicSets { // Slice header
-			deltaIdx = byte(r.ReadExpGolomb() + 1)
+			deltaIdx = r.ReadExpGolomb() + 1
 			// parse delta_idx_minus1
 		}
-		if deltaIdx > idx {
+		if deltaIdx > uint(idx) {
 			r.SetError(fmt.Errorf("deltaIdx > idx in parseShortTermRPS"))
 			return stps
 		}
 		/* deltaRpsSign */ _ = r.Read(1)
 		/* absDeltaRpsMinus1*/ _ = r.ReadExpGolomb()
 		//deltaRps := (1 - (deltaRpsSign << 1)) * (absDeltaRpsMinus1 + 1)
-		refIdx := idx - deltaIdx
+		refIdx := idx - byte(deltaIdx)
 		numDeltaPocs := sps.ShortTermRefPicSets[refIdx].NumDeltaPocs
 		for j := 0; j <= int(numDeltaPocs); j++ {
 			usedByCurrPicFlag := r.ReadFlag()
